@@ -1,8 +1,10 @@
 #!/bin/bash
 # usage: tools/thorough_sweep.sh <prop>...   runs the thorough tier of the given checks, prints rc and wall time
+# (full output of each check: /tmp/thorough_logs/<prop>.log)
+mkdir -p /tmp/thorough_logs
 for p in "$@"; do
   s=$(date +%s)
-  out=$(./check $p --tier thorough 2>&1); rc=$?
-  echo "$p thorough rc=$rc $(( $(date +%s) - s ))s $(echo "$out" | grep -c '^VIOLATION') violations"
-  if [ $rc -ne 0 ]; then echo "$out" | grep -A2 "^VIOLATION\|MACHINERY" | cut -c1-400 | head -30; fi
+  ./check $p --tier thorough > /tmp/thorough_logs/$p.log 2>&1; rc=$?
+  echo "$p thorough rc=$rc $(( $(date +%s) - s ))s $(grep -c '^VIOLATION' /tmp/thorough_logs/$p.log) violations"
+  if [ $rc -ne 0 ]; then grep -v Warn /tmp/thorough_logs/$p.log | tail -15 | cut -c1-400; fi
 done
